@@ -337,6 +337,7 @@ func runLogProp(cfg logRunCfg) func(seed int64, tier string, outDir string) *res
 			prof.maxReps++
 		}
 		hl := &caseList{name: "hist_cases", typ: "history", checker: "mismatches_hist"}
+		wl := &caseList{name: "hist_cases_wf", checker: "mismatches_wf", sameAs: hl}
 		header := "From IpfsLog Require Import Model.System Model.CheckLog.\nOpen Scope Z_scope.\n"
 		var gens []func(h *histRun, i int) *hop
 		if replayFile != "" {
@@ -437,7 +438,7 @@ func runLogProp(cfg logRunCfg) func(seed int64, tier string, outDir string) *res
 		if len(res.Samples) == 0 {
 			res.Samples = []interface{}{"(no non-trivial history)"}
 		}
-		res.CaseFiles = writeShards(outDir, cfg.prop, header, []*caseList{hl}, cfg.perShard)
+		res.CaseFiles = writeShards(outDir, cfg.prop, header, []*caseList{hl, wl}, cfg.perShard)
 		res.ModelCases = len(hl.items)
 		res.Evaluations = len(gens) + res.Evaluations0
 		res.Distinct = len(shapes)
